@@ -68,7 +68,7 @@ Proof.
     + apply Forall_forall. intros e He. apply in_map_iff in He. destruct He as [r [<- Hr]].
       rewrite Forall_forall in Hrows. destruct (Hrows r Hr) as [n [s [-> [Hn [Hs Hne']]]]].
       unfold good. cbn [snd]. rewrite col_text_print by assumption. exact Hne'.
-  - (* Fastq *) cbn [from_data]. unfold fastq_from_data.
+  - (* Fastq *) cbn [from_data]. unfold fastq_from_data, fastq_texts, m_fastq_plus, m_fastq_n_lines, m_fastq_offsets, m_fastq_header, m_newline.
     match goal with |- context [scatter _ (columns 4 ?t) _] =>
       replace (length rows) with (length t) by apply map_length end.
     rewrite fastq_join_rows.
